@@ -61,6 +61,8 @@ pub fn subject_cfg(rng: &mut Rng, tier: Tier) -> GenCfg {
         formats_have_path: rng.chance(1, 2),
         rich_formats: rng.chance(1, 2),
         likely_true: 0,
+        unsupported: if rng.chance(1, 6) { 1 } else { 0 },
+        placeholder_strings: false,
     }
 }
 
@@ -155,7 +157,11 @@ pub fn scenario(rng: &mut Rng, tier: Tier) -> Scenario {
             let k = rng.range(1, 3);
             let texts = (0..k)
                 .map(|_| {
-                    let cfg = subject_cfg(rng, Tier::Quick);
+                    let mut cfg = subject_cfg(rng, Tier::Quick);
+                    if rng.chance(1, 3) {
+                        cfg.unsupported = 1;
+                        cfg.time_tests = cfg.time_tests.max(1);
+                    }
                     gen::expression(rng, &cfg)
                 })
                 .collect();
@@ -496,4 +502,5 @@ pub static PROP: crate::histcheck::HistProp = crate::histcheck::HistProp {
     quick_runs: 20_000,
     thorough_runs: 1_000_000,
     block: 500,
+    cross_process: true,
 };
